@@ -63,6 +63,8 @@ NUM_POOL = [0.0, -0.0, 1.0, -1.0, 2.0, 0.5, 1.5, 3.0, 10.0, -10.0, 1e308, -1e308
 
 CHAR_POOL = [0x61, 0x62, 0x41, 0x7a, 0x30, 0x20, 0x7f, 0x80, 0xe9, 0xff, 0x7ff, 0x800, 0xd7ff, 0xe000, 0xff5e, 0xfffd,
              0xffff, 0x10000, 0x1f600, 0x10ffff, 0x0, 0x22, 0x5c, 0xa, 0x301, 0xdf, 0x65e5]
+HIGH_BMP = [0xe000, 0xff5e, 0xfffd, 0xffff, 0xf900]
+ASTRAL = [0x10000, 0x1f600, 0x10ffff, 0x20000]
 NAME_POOL = ['a', 'b', 'c', 'aa', 'A', 'é', '～', '\U00010000', 'z', '', 'a b', 'ࠀ']
 
 
@@ -84,7 +86,8 @@ def gen_num(rng):
 
 def gen_str(rng):
     n = rng.choice([0, 1, 1, 2, 2, 3, 4])
-    return ['str', [rng.choice(CHAR_POOL) for _ in range(n)]]
+    pool = CHAR_POOL if rng.random() < 0.75 else HIGH_BMP + ASTRAL
+    return ['str', [rng.choice(pool) for _ in range(n)]]
 
 
 def gen_ordered(rng, depth):
@@ -170,9 +173,16 @@ def mutate(rng, v, depth=0):
             return ['str', s + [rng.choice(CHAR_POOL)]]     # proper prefix
         if c < 0.55 and s:
             return ['str', s[:-1]]
-        if c < 0.9 and s:
+        if c < 0.7 and s:
             i = rng.randrange(len(s))
             s[i] = rng.choice(CHAR_POOL)
+            return ['str', s]
+        if c < 0.9 and s:
+            # UTF-16 order differs from code-point order exactly between U+E000..U+FFFF and the astral planes
+            i = rng.randrange(len(s))
+            s[i] = rng.choice(ASTRAL) if s[i] < 0x10000 else rng.choice(HIGH_BMP)
+            if rng.random() < 0.5 and i > 0:
+                s[i - 1] = rng.choice(HIGH_BMP)
             return ['str', s]
         return gen_str(rng)
     if k == 'arr':
@@ -221,6 +231,9 @@ def mutate(rng, v, depth=0):
     if k == 'bool':
         return ['bool', 1 - v[1]] if rng.random() < 0.7 else ['null']
     if k in ('fail', 'faily'):
+        # both sides failing at one position with different errors: the lhs must be forced first
+        if rng.random() < 0.6:
+            return ['fail', [0x71, 0x30 + rng.randint(0, 9)]] if (k == 'faily' or rng.random() < 0.7) else ['faily', 1]
         return gen_any(rng, 1)
     return gen_any(rng, 1) if rng.random() < 0.5 else v
 
